@@ -286,6 +286,23 @@ def _join_measurements(join, left_measurements, right_measurements):
     return joined_measurements
 
 
+def _parameter_config(parset_name, paramset):
+    """
+    Measurement-level parameter configuration reproducing a model's paramset.
+    """
+    parameter_config = {
+        "bounds": [list(x) for x in paramset.suggested_bounds],
+        "inits": list(paramset.suggested_init),
+        "name": parset_name,
+    }
+    # the schema holds a single boolean: per-component flags that differ are
+    # derived from the modifier data and are re-derived when the model is rebuilt
+    suggested_fixed = paramset.suggested_fixed
+    if all(x == suggested_fixed[0] for x in suggested_fixed):
+        parameter_config["fixed"] = bool(suggested_fixed[0])
+    return parameter_config
+
+
 class Workspace(_ChannelSummaryMixin, dict):
     """
     A JSON-serializable object that is built from an object that follows the :obj:`workspace.json` `schema <https://scikit-hep.org/pyhf/likelihood.html#workspace>`__.
@@ -830,15 +847,7 @@ class Workspace(_ChannelSummaryMixin, dict):
                     # a POI-less model is stored with an empty POI string
                     'poi': model.config.poi_name or '',
                     'parameters': [
-                        {
-                            "bounds": [
-                                list(x)
-                                for x in parset_spec['paramset'].suggested_bounds
-                            ],
-                            "inits": parset_spec['paramset'].suggested_init,
-                            "fixed": parset_spec['paramset'].suggested_fixed_as_bool,
-                            "name": parset_name,
-                        }
+                        _parameter_config(parset_name, parset_spec['paramset'])
                         for parset_name, parset_spec in model.config.par_map.items()
                     ],
                 },
